@@ -106,7 +106,7 @@ type c10Env struct {
 	conflictFor      string
 	conflictVal      interface{}
 	conflictInjected bool
-	initDone      bool // the one Init of this environment's store has been made
+	initDone         bool // the one Init of this environment's store has been made
 }
 
 // c10Project is the value transformation of the transformers: it hides the
